@@ -286,14 +286,16 @@ fn dfs_programs(tier: Tier) -> Vec<Case> {
         v.push(c(pre, &[&[Open(1)], &[Open(3)]]));
         // with closes and a second connection
         v.push(c(pre, &[&[Open(1), Close], &[Open(1), Close]]));
-        v.push(c(pre, &[&[Open(1), Close, Open(3)], &[Open(3), Open(1)]]));
+        if tier == Tier::Thorough || pre.len() != 1 {
+            v.push(c(pre, &[&[Open(1), Close, Open(3)], &[Open(3), Open(1)]]));
+        }
         // existing + new
         v.push(c(pre, &[&[Open(0)], &[Open(1)]]));
     }
-    // three threads
-    v.push(c(&[], &[&[Open(1)], &[Open(1)], &[Open(1)]]));
-    v.push(c(&[0], &[&[Open(1)], &[Open(3)], &[Open(1)]]));
+    // three and four threads: the trees are too large for the quick tier (covered there by `sampled`)
     if tier == Tier::Thorough {
+        v.push(c(&[], &[&[Open(1)], &[Open(1)], &[Open(1)]]));
+        v.push(c(&[0], &[&[Open(1)], &[Open(3)], &[Open(1)]]));
         v.push(c(&[], &[&[Open(1), Close], &[Open(1), Close], &[Open(3)]]));
         v.push(c(&[2], &[&[Open(1)], &[Open(3)], &[Open(0)], &[Open(1)]]));
     }
@@ -301,7 +303,7 @@ fn dfs_programs(tier: Tier) -> Vec<Case> {
 }
 
 fn run_dfs(ctx: &Ctx, rep: &mut Report) {
-    let cap = ctx.tier.pick(1_500usize, 400_000);
+    let cap = ctx.tier.pick(3_000usize, 100_000);
     let mut total = 0usize;
     let mut all_exhausted = true;
     let mut per_program = Vec::new();
@@ -388,7 +390,7 @@ fn run_stress(ctx: &Ctx, rep: &mut Report) {
 }
 
 pub fn run(ctx: &Ctx, rep: &mut Report, replay: Option<&serde_json::Value>) {
-    rep.rule("threads performing the metric operations of RtrStream::new/Drop (get_client, inc, byte count, dec) for addresses from a pool of 4 under harness-owned schedules over rtr_metrics.{before_lock,locked,before_store} and the registry mutex's try-lock: (dfs) every schedule of 22+ small programs (2-3 threads, same/different/new/existing addresses), (sampled) generated programs of 2-4 threads x 1-4 ops with generated choice strings, (stress) uncontrolled 16-thread rounds, (e2e) real rtr_listener with TCP clients from 127.0.0.1-127.0.0.4; invariant checked at every scheduling step (list strictly sorted, no address disappears) and at the end (exactly the connected addresses, per-entry byte counts equal the number of connections through any handle, open counts exact, zero after all closed); non-trivial = two first connections from the same new address by different threads both leave the fast path and overlap; distinct by program+schedule");
+    rep.rule("threads performing the metric operations of RtrStream::new/Drop (get_client, inc, byte count, dec) for addresses from a pool of 4 under harness-owned schedules over rtr_metrics.{before_lock,locked,before_store} and the registry mutex's try-lock: (dfs) every schedule of 18 two-thread programs (same/different/new/existing addresses, with closes and second connections; thorough adds 3-4 thread programs, capped at 100 000 schedules each), (sampled) generated programs of 2-4 threads x 1-4 ops with generated choice strings, (stress) uncontrolled 16-thread rounds, (e2e) real rtr_listener with TCP clients from 127.0.0.1-127.0.0.4; invariant checked at every scheduling step (list strictly sorted, no address disappears) and at the end (exactly the connected addresses, per-entry byte counts equal the number of connections through any handle, open counts exact, zero after all closed); non-trivial = two first connections from the same new address by different threads both leave the fast path and overlap; distinct by program+schedule");
     rep.assume("the yield points cover every lock acquisition and the load/lock/re-load/store steps of RtrPerAddrMetrics::get; interleavings inside regions without yield points (atomic counter updates) are only exercised by the uncontrolled stress rounds");
     rep.assume("one controlled thread runs at a time, i.e. sequentially consistent executions only (no weak-memory effects)");
     if let Some(v) = replay {
@@ -405,7 +407,7 @@ pub fn run(ctx: &Ctx, rep: &mut Report, replay: Option<&serde_json::Value>) {
     if rep.violated() {
         return;
     }
-    run_prop(ctx, rep, "sampled", ctx.tier.pick(2_500, 120_000), case_strategy(), prop_sampled);
+    run_prop(ctx, rep, "sampled", ctx.tier.pick(4_000, 120_000), case_strategy(), prop_sampled);
     if rep.violated() {
         return;
     }
@@ -413,7 +415,7 @@ pub fn run(ctx: &Ctx, rep: &mut Report, replay: Option<&serde_json::Value>) {
     if rep.violated() {
         return;
     }
-    run_prop(ctx, rep, "e2e", ctx.tier.pick(40, 600), e2e_strategy(), prop_e2e);
+    run_prop(ctx, rep, "e2e", ctx.tier.pick(60, 1_000), e2e_strategy(), prop_e2e);
 }
 
 //------------ end-to-end variant ------------------------------------------------------------------
@@ -494,8 +496,9 @@ fn prop_e2e(case: &E2eCase, info: &mut CaseInfo) -> Verdict {
             if d.current_connections() as u64 != per[a] {
                 return Err(format!("open-count-mismatch|{} has {} open connections, entry shows {}", a, per[a], d.current_connections()));
             }
-            if d.reset_queries() as u64 != per[a] {
-                return Err(format!("handle-not-aliased|{} completed {} reset queries, entry shows {}", a, per[a], d.reset_queries()));
+            // every client sent exactly one 8-byte Reset Query and the server read it before answering
+            if d.bytes_read() != 8 * per[a] {
+                return Err(format!("handle-not-aliased|{} connections from {} sent 8 bytes each and were answered, but the listed entry counts {} bytes read", per[a], a, d.bytes_read()));
             }
         }
         let total: u64 = per.values().sum();
